@@ -14,6 +14,11 @@ import (
 //
 //	direct "tasks" : k Tasks built with NewTask, each run by Task.Execute in its own goroutine
 //	direct "slots" : k goroutines calling Workflow.IncConcurrentTasks / DecConcurrentTasks
+//	direct "tasks2wf" : TWO workflows in one program (each with its own slots): all tasks but the last
+//	                    belong to workflow A, the last to workflow B; the first and the last task
+//	                    rendezvous on a barrier (B's free slot must be usable while A's are taken)
+//	direct "nested" : every task of the outer workflow runs an inner workflow (its own slots) with
+//	                  one task, inside its body
 
 func directSpec(p ScenParams) *WSpec {
 	w := &WSpec{Name: "w", MaxTasks: p.Max, Buf: p.Buf, Direct: p.Graph}
@@ -24,6 +29,10 @@ func directSpec(p ScenParams) *WSpec {
 		for i := range w.Procs {
 			w.Procs[i].Barrier = "b"
 		}
+	}
+	if p.Graph == "tasks2wf" {
+		w.Procs[0].Barrier = "b"
+		w.Procs[len(w.Procs)-1].Barrier = "b"
 	}
 	return w
 }
@@ -47,6 +56,51 @@ func (r *runner) directBody() {
 		for i := range w.Procs {
 			ps := &w.Procs[i]
 			t := sp.NewTask(wf, holder, ps.Name, "# nothing", map[string]*sp.FileIP{}, map[string]func(*sp.Task) string{}, map[string]*sp.PortInfo{}, map[string]string{}, map[string]string{}, "", func(t *sp.Task) { body(ps) }, ps.Cores)
+			tasks = append(tasks, t)
+			go t.Execute()
+		}
+		for _, t := range tasks {
+			<-t.Done
+		}
+	case "tasks2wf":
+		body2 := func(ps *ProcSpec) {
+			key := ps.Name + "[]"
+			vs.Event("S:" + key)
+			if ps.Barrier != "" {
+				r.env.barrierWait(ps.Barrier, 2)
+			}
+			vs.Event("E:" + key)
+		}
+		wfB := sp.NewWorkflowCustomLogFile(w.Name+"b", w.MaxTasks, "/dev/null")
+		holderA, holderB := wf.NewProc("holder", "# nothing"), wfB.NewProc("holder", "# nothing")
+		tasks := []*sp.Task{}
+		for i := range w.Procs {
+			ps := &w.Procs[i]
+			twf, th := wf, holderA
+			if i == n-1 {
+				twf, th = wfB, holderB
+			}
+			t := sp.NewTask(twf, th, ps.Name, "# nothing", map[string]*sp.FileIP{}, map[string]func(*sp.Task) string{}, map[string]*sp.PortInfo{}, map[string]string{}, map[string]string{}, "", func(t *sp.Task) { body2(ps) }, ps.Cores)
+			tasks = append(tasks, t)
+			go t.Execute()
+		}
+		for _, t := range tasks {
+			<-t.Done
+		}
+	case "nested":
+		holder := wf.NewProc("holder", "# nothing")
+		tasks := []*sp.Task{}
+		for i := range w.Procs {
+			ps := &w.Procs[i]
+			t := sp.NewTask(wf, holder, ps.Name, "# nothing", map[string]*sp.FileIP{}, map[string]func(*sp.Task) string{}, map[string]*sp.PortInfo{}, map[string]string{}, map[string]string{}, "", func(t *sp.Task) {
+				vs.Event("S:" + ps.Name + "[]")
+				inner := sp.NewWorkflowCustomLogFile(w.Name+"-in-"+ps.Name, 1, "/dev/null")
+				ih := inner.NewProc("holder", "# nothing")
+				it := sp.NewTask(inner, ih, ps.Name+"i", "# nothing", map[string]*sp.FileIP{}, map[string]func(*sp.Task) string{}, map[string]*sp.PortInfo{}, map[string]string{}, map[string]string{}, "", func(t *sp.Task) {}, 1)
+				go it.Execute()
+				<-it.Done
+				vs.Event("E:" + ps.Name + "[]")
+			}, ps.Cores)
 			tasks = append(tasks, t)
 			go t.Execute()
 		}
